@@ -130,7 +130,8 @@ func (w *epGWorld) check() string {
 		if err != nil || len(res) != 1 {
 			return fmt.Sprintf("generation failed: %v (%d resources)", err, len(res))
 		}
-		want := endpoints.NewEndpointBuilder(w.cname, p, w.s.PushContext()).BuildClusterLoadAssignment(w.s.Discovery.Env.EndpointIndex)
+		eb := endpoints.NewEndpointBuilder(w.cname, p, w.s.PushContext())
+		want := eb.BuildClusterLoadAssignment(w.s.Discovery.Env.EndpointIndex)
 		got, err := res[0].Resource.UnmarshalNew()
 		if err != nil {
 			return "unreadable resource: " + err.Error()
